@@ -56,6 +56,9 @@ def case_st(draw):
         "driver": driver, "n": n, "segments": segs, "entry": [draw(st.sampled_from(eps)) for _ in segs],
         "intervals": ivals, "seed": draw(st.integers(0, 2 ** 32)), "logging_interval": draw(st.sampled_from([1, 1, 2, 3])),
         "pos": [[draw(fl(0.5, 4.5)) for _ in range(3)] for _ in range(3)],
+        "logfile": draw(st.sampled_from([True, True, False])), "trajectory": draw(st.sampled_from([True, True, False])),
+        # create the generators of consecutive irun segments first and exhaust them afterwards
+        "deferred_irun": draw(st.sampled_from([False, False, True])),
     }
 
 
@@ -71,7 +74,11 @@ def build(case):
     atoms = Atoms("Ar3", positions=case["pos"], cell=[5, 5, 5], pbc=True)
     atoms.calc = ModelCalc("pair", {"k": 0.05, "center": (2.5, 2.5, 2.5), "a": 0.4, "s": 1.6})
     log, traj = io.StringIO(), io.StringIO()
-    kw = {"seed": case["seed"], "logfile": log, "trajectory": traj, "logging_interval": case["logging_interval"]}
+    kw = {"seed": case["seed"], "logging_interval": case["logging_interval"]}
+    if case.get("logfile", True):
+        kw["logfile"] = log
+    if case.get("trajectory", True):
+        kw["trajectory"] = traj
     if case["driver"] == "Canonical":
         mc = Canonical(atoms, temperature=3000.0, max_cycles=2, **kw)
         mc.add_move(DisplacementMove(np.arange(3), Ball(0.3)), name="d")
@@ -154,11 +161,28 @@ def run_case(case):
         with warnings.catch_warnings():
             warnings.simplefilter("ignore")
             mc, atoms, log, traj, recs = build(case)
-            for how, k in zip(case["entry"], case["segments"]):
+            plan = list(zip(case["entry"], case["segments"]))
+            i = 0
+            while i < len(plan):
+                how, k = plan[i]
                 before = mc.step_count
+                if case.get("deferred_irun") and how == "irun" and i + 1 < len(plan) and plan[i + 1][0] == "irun":
+                    labels.append("deferred-irun-pair")
+                    k2 = plan[i + 1][1]
+                    g1, g2 = mc.irun(k), mc.irun(k2)
+                    for g in (g1, g2):
+                        for step in g:
+                            if step is not None and hasattr(step, "__iter__") and not isinstance(step, np.ndarray):
+                                for _ in step:
+                                    pass
+                    if mc.step_count != before + k + k2:
+                        return {"labels": labels, "nontrivial": True, "violation": {"kind": "step-count:deferred-irun", "detail": f"g1=irun({k}); g2=irun({k2}); exhausting g1 then g2 from step {before} ended at step {mc.step_count}"}}
+                    i += 2
+                    continue
                 execute(mc, how, k)
                 if mc.step_count != before + k:
                     return {"labels": labels, "nontrivial": True, "violation": {"kind": f"step-count:{how}", "detail": f"{how}({k}) from step {before} ended at step {mc.step_count}"}}
+                i += 1
             ref, ratoms, rlog, rtraj, rrecs = build(case)
             ref.run(n)
     except Exception as exc:
@@ -178,13 +202,20 @@ def run_case(case):
         if r.calls != exp:
             return viol("observer-schedule" + (":leading-zero" if lead0 else ""), f"observer with interval {iv} was called at steps {r.calls}, model says {exp}")
     text = log.getvalue()
-    lines = text.splitlines()
+    if not case.get("logfile", True):
+        labels.append("no-logfile")
+    lines = text.splitlines() if case.get("logfile", True) else None
     n_rows = len(expected_calls(case["logging_interval"], n))
-    header = [l for l in lines if l.lstrip().startswith("Class")]
-    if len(header) != 1 or (lines and not lines[0].lstrip().startswith("Class")):
-        return viol("log-header" + (":leading-zero" if lead0 else ""), f"log has {len(header)} header lines (first line {lines[0][:40] if lines else None!r})")
-    if len(lines) != 1 + n_rows:
-        return viol("log-rows", f"log has {len(lines) - 1} rows, expected {n_rows}")
+    if lines is not None:
+        header = [l for l in lines if l.lstrip().startswith("Class")]
+        if len(header) != 1 or (lines and not lines[0].lstrip().startswith("Class")):
+            return viol("log-header" + (":leading-zero" if lead0 else ""), f"log has {len(header)} header lines (first line {lines[0][:40] if lines else None!r})")
+        if len(lines) != 1 + n_rows:
+            return viol("log-rows", f"log has {len(lines) - 1} rows, expected {n_rows}")
+    if case.get("trajectory", True):
+        frames = traj.getvalue().count("Lattice=")
+        if frames != n_rows:
+            return viol("trajectory-frames" + (":leading-zero" if lead0 else ""), f"trajectory has {frames} frames, expected {n_rows}")
     # (ii) differential: unsplit run
     if mc.step_count != ref.step_count:
         return viol("split-step-count", f"step_count {mc.step_count} vs {ref.step_count} for the unsplit run")
